@@ -676,6 +676,11 @@ def oracle(net: dict, tol: float, rel: bool, out: dict, tr: dict) -> tuple[str, 
     if rel:
         if really_below:
             return "finding:c15-relnorm-accumulation", what
+        if nonfinite == "border":
+            # a component of the closed form is smaller than the integration-error scale of its pool, so
+            # the RELATIVE change the loop saw cannot be decided from the closed form either way: not
+            # judged here (the exact loop/implementation comparison excludes such cases as borderline too)
+            return "undecided:relative-change-on-error-scale", what
         return "violation", what
     if really_below:
         return None  # changes by less than the tolerance per step: steady on the requested scale
@@ -897,6 +902,8 @@ def check(run: Run) -> None:
             cls, what = verdict
             if cls.startswith("finding:"):
                 finding_hits += 1
+            elif cls.startswith("undecided:"):
+                stats["oracle_undecided_border"] = stats.get("oracle_undecided_border", 0) + 1
             elif n_viol < 4:
                 n_viol += 1
                 run.violation(what, {"kind": "case", "net": net, "tol": tol, "rel": rel, "impl": out})
